@@ -34,6 +34,9 @@ type ReaderSpec struct {
 	// WithData: the final bytes arrive together with io.EOF (or with the injected
 	// error) in one Read call, as io.Reader permits
 	WithData bool `json:"with_data,omitempty"`
+	// Buffer: the content is handed over in a *bytes.Buffer (whole, chunks do not apply) which the
+	// caller fills with other bytes as soon as Push has returned
+	Buffer bool `json:"buffer,omitempty"`
 }
 
 // PusherSpec: one Push.
@@ -69,7 +72,7 @@ func init() { register(&pushProp{}) }
 func (p *pushProp) ID() string { return "C05" }
 
 func (p *pushProp) Rule() string {
-	return "scenario = 1-4 pushers (one task each) into one store (memory, OCI Store, OCI Storage, file named/fallback, size-limited, caching proxy) or a direct ReadAll/VerifyReader call; each pusher = bytes x descriptor variant x reader behaviour (chunking, zero-byte reads, early EOF, error at offset, trailing bytes); a watcher task inspects blobs/ between the pushers' disk operations; non-trivial = the descriptor or the reader deviates from the plain case, or >=2 pushers interleave; distinct = distinct (event-trace hash, scenario outcome vector)"
+	return "scenario = 1-4 pushers (one task each) into one store (memory, OCI Store, OCI Storage, file named/fallback, size-limited, caching proxy) or a direct ReadAll/VerifyReader call; each pusher = bytes x descriptor variant x reader behaviour (a *bytes.Buffer the caller overwrites once Push has returned, chunking, zero-byte reads, early EOF, error at offset, trailing bytes); a watcher task inspects blobs/ between the pushers' disk operations; non-trivial = the descriptor or the reader deviates from the plain case, or >=2 pushers interleave; distinct = distinct (event-trace hash, scenario outcome vector)"
 }
 
 func (p *pushProp) Components() map[string][]string {
@@ -121,7 +124,9 @@ func (p *pushProp) Gen(r *Rand, tier string, idx int) any {
 			ps.Reader.Extra = r.Range(1, 5)
 		}
 		ps.Reader.WithData = r.Chance(0.3)
-		if r.Chance(0.5) {
+		if r.Chance(0.15) {
+			ps.Reader.Buffer = true
+		} else if r.Chance(0.5) {
 			k := r.Range(1, 4)
 			for j := 0; j < k; j++ {
 				if ps.Repeat > 0 {
@@ -584,6 +589,16 @@ func (p *pushProp) run(rc *RunCtx, pp *PushParams, info *RunInfo) *Verdict {
 					}
 					errs[i] = err
 				default:
+					if ps.Reader.Buffer && ps.Reader.FailAt < 0 {
+						buf := bytes.NewBuffer(append([]byte{}, rd.data...))
+						n := buf.Len()
+						errs[i] = st.Push(ctx, descs[i], buf)
+						// the caller's buffer serves its next purpose
+						buf.Reset()
+						buf.Write(bytes.Repeat([]byte("#"), n))
+						info.Probes["pushed_from_a_buffer_reused_afterwards"]++
+						break
+					}
 					errs[i] = st.Push(ctx, descs[i], rd)
 				}
 			}
